@@ -16,8 +16,8 @@ run missed, the re-run after the specification was extended). `check_output.txt`
 None of these changes is ever applied to /repo; to run the checks against one:
 `tools/mutant_run.sh seeded/<id>/patch.diff Cxx` (scratch worktree + scratch copy of /verif under /tmp, removed afterwards).
 
-Three rounds of 20 changes each (round 2: off the beaten path; round 3: told not to repeat the 40 earlier ideas, evaluated blind;
-`result.json` has `"round"`). All 60 build, keep the 491 repository tests green, and fail their demonstration only with the change applied. A first-run cell
+Four rounds of 20 changes each (round 2: off the beaten path; rounds 3 and 4: told not to repeat the earlier ideas, evaluated blind;
+`result.json` has `"round"`; a round-4 change without `result.json` was delivered but its evaluation did not finish in the session). All evaluated ones build, keep the 491 repository tests green, and fail their demonstration only with the change applied. A first-run cell
 that starts with NOT BLIND means that the specification had been extended from the change's one-line summary before the checks
 were first run against it.
 
